@@ -154,7 +154,9 @@ let check_pline ?(quiet_stats=false) (pl:pline) : unit =
   if valid && fresh && Sys.getenv_opt "VERIF_TEST_INTERFACES" = Some "1" then begin
     let r = int_of_n (test_interfaces b) in
     bump "interface_tests";
-    if r <> 0 then mismatch "interface_stmt" (Printf.sprintf "%s failing statements mask=%d" ctx r)
+    if r <> 0 then mismatch "interface_stmt" (Printf.sprintf "%s failing statements mask=%d" ctx r);
+    (* stmt_ep_one_checker: an en-passant state never coexists with a double check *)
+    if b.epsq <> None then begin bump "interface_ep_positions"; if int_of_n (popcnt b.checkers) >= 2 then mismatch "interface_stmt" (ctx ^ " ep state with two checkers") end
   end;
   if fresh && not quiet_stats then sample "position" pl.enc
 
